@@ -12,8 +12,18 @@
 
     Hashes are abstract identifiers supplied with every transaction: [th] for Hash(), [tk] for its
     16-byte prefix (the txHeight cache key), [tfull] for FullHash().  [tsig] is the result of
-    Transaction.CheckSign (the signature scheme is not modelled).  Single transactions only (no
-    groups), not a para chain, ForkCheckTxDup/ForkTxHeight/ForkBlockCheck/ForkCheckBlockTime active. *)
+    Transaction.CheckSign (the signature scheme is not modelled).  Transaction groups are in the
+    model as they stand in a block: expanded members with GroupCount [tgc], Header [thdr] (id of
+    the group hash, 0 = nil; Hash() does not cover it) and Next [tnext] (Hash id of the following
+    member, 0 = nil); executor.procExecTxList cuts the list into single transactions and groups
+    and executor.checkTxGroup / Transactions.Check judge a group as a whole.  Not a para chain,
+    ForkCheckTxDup/ForkTxHeight/ForkBlockCheck/ForkCheckBlockTime/ForkTxGroup active.
+
+    The second half of the file is the node with its mempool made concrete: the pool holds the
+    items that were accepted (a single transaction or the members of a group), loses the
+    transactions of a connected block (by Hash()) and the expired ones, and may get back the
+    transactions of disconnected blocks (Mempool.delBlock, asynchronous: what really came back is
+    told by an observation, [NSync]). *)
 From Coq Require Import List ZArith NArith Bool.
 Import ListNotations.
 Open Scope Z_scope.
@@ -26,7 +36,10 @@ Record tx := mkTx {
   tfee : Z;      (* Fee             *)
   tsize : Z;     (* types.Size(tx)  *)
   tchain : Z;    (* ChainID         *)
-  tsig : bool    (* CheckSign       *)
+  tsig : bool;   (* CheckSign       *)
+  tgc : Z;       (* GroupCount      *)
+  thdr : N;      (* Header (id of a 32-byte value; a group head's Header is its own Hash()), 0 = nil *)
+  tnext : N      (* Next (Hash id of the following group member), 0 = nil *)
 }.
 
 Record cfg := mkCfg {
@@ -63,9 +76,78 @@ Definition check_fee (c : cfg) (t : tx) : bool :=
   else if (tfee t >? c_maxfee c) && (c_maxfee c >? 0) then false
   else tchain t =? c_chain c.
 
-(** executor.checkTx: [true] = the transaction gets a non-error receipt *)
+(** executor.checkTx for a transaction with GroupCount = 0: [true] = the transaction gets a
+    non-error receipt.  Transaction.Check answers ErrNomalTx when Header or Next is set. *)
 Definition check_tx (c : cfg) (h bt : Z) (t : tx) : bool :=
-  negb ((h >? 0) && (bt >? 0) && is_expire c t h bt) && check_fee c t.
+  negb ((h >? 0) && (bt >? 0) && is_expire c t h bt)
+  && N.eqb (thdr t) 0 && N.eqb (tnext t) 0 && check_fee c t.
+
+(** Transaction.GetRealFee *)
+Definition real_fee (c : cfg) (t : tx) : Z := (tsize t / 1000 + 1) * c_minfee c.
+
+Definition sum_fee (c : cfg) (g : list tx) : Z := fold_right (fun t a => real_fee c t + a) 0 g.
+
+(** the Next chain: every member names the Hash() of the following one, the last has none *)
+Fixpoint links (g : list tx) : bool :=
+  match g with
+  | [] => true
+  | t :: r => match r with
+              | [] => N.eqb (tnext t) 0
+              | u :: _ => N.eqb (tnext t) (th u) && links r
+              end
+  end.
+
+(** Transactions.Check / CheckWithFork on the main chain (no para executors): [true] = nil.
+    Members are checked with minfee 0 (chain id only, under ForkTxChainIDStrict); members after
+    the first pay nothing; the first pays for all sizes; Header, GroupCount and Next must fit. *)
+Definition check_group (c : cfg) (g : list tx) : bool :=
+  match g with
+  | [] => false
+  | hd :: tl =>
+      forallb (fun t => negb (c_strict c) || (tchain t =? c_chain c)) g
+      && forallb (fun t => tfee t =? 0) tl
+      && forallb (fun t => tsize t <=? c_maxsize c) g
+      && (sum_fee c g <=? tfee hd)
+      && negb ((tfee hd >? c_maxfee c) && (c_maxfee c >? 0))
+      && N.eqb (th hd) (thdr hd)
+      && forallb (fun t => N.eqb (thdr hd) (thdr t)) tl
+      && forallb (fun t => tgc t =? Z.of_nat (length g)) g
+      && links g
+  end.
+
+(** executor.checkTxGroup: Transactions.IsExpire asks isExpire of every member (not the
+    member-level Transaction.IsExpire, which would first try to decode the member's Header) *)
+Definition group_rc (c : cfg) (h bt : Z) (g : list tx) : bool :=
+  negb ((h >? 0) && (bt >? 0) && existsb (fun t => is_expire c t h bt) g) && check_group c g.
+
+(** executor.procExecTxList: per transaction, [true] = non-error receipt.  [pend] members of a
+    group that has been judged ([v]) are still to be passed over. *)
+Fixpoint exec_go (c : cfg) (h bt : Z) (pend : nat) (v : bool) (txs : list tx) : list bool :=
+  match txs with
+  | [] => []
+  | t :: r =>
+      match pend with
+      | S p => v :: exec_go c h bt p v r
+      | O =>
+          let gc := tgc t in
+          if (gc <? 0) || (gc =? 1) || (gc >? 20) then false :: exec_go c h bt 0 false r
+          else if gc =? 0 then check_tx c h bt t :: exec_go c h bt 0 false r
+          else if (length txs <? Z.to_nat gc)%nat then false :: exec_go c h bt 0 false r
+          else let ok := group_rc c h bt (firstn (Z.to_nat gc) txs) in
+               ok :: exec_go c h bt (Z.to_nat gc - 1) ok r
+      end
+  end.
+
+Definition exec_rc (c : cfg) (h bt : Z) (txs : list tx) : list bool := exec_go c h bt 0 false txs.
+
+Definition all_true (l : list bool) : bool := forallb (fun x => x) l.
+
+(** the transactions whose receipt is not an error *)
+Fixpoint keep (fl : list bool) (txs : list tx) : list tx :=
+  match fl, txs with
+  | f :: fl', t :: r => if f then t :: keep fl' r else keep fl' r
+  | _, _ => []
+  end.
 
 Record blk := mkBlk {
   b_id : N;      (* block hash  *)
@@ -178,7 +260,7 @@ Definition connect_peer (c : cfg) (s : st) (pool : list N) (b : blk) : st * err 
   if negb (linked s b) then (s, ELink)
   else if negb (sig_stage pool (b_txs b)) then (s, ESign)
   else if negb (Nat.eqb (length (check_dup s (b_txs b))) (length (b_txs b))) then (s, EDup)
-  else if negb (forallb (check_tx c (b_h b) (b_time b)) (b_txs b)) then (s, EExec)
+  else if negb (all_true (exec_rc c (b_h b) (b_time b) (b_txs b))) then (s, EExec)
   else if parent_time s >? b_time b then (s, ETime)
   else match b_txs b with
        | [] => (s, EEmpty)
@@ -191,7 +273,8 @@ Definition connect_peer (c : cfg) (s : st) (pool : list N) (b : blk) : st * err 
 Definition connect_self (c : cfg) (s : st) (b : blk) : st * err * list tx :=
   if negb (linked s b) then (s, ELink, [])
   else
-    let kept := filter (check_tx c (b_h b) (b_time b)) (check_dup s (b_txs b)) in
+    let dd := check_dup s (b_txs b) in
+    let kept := keep (exec_rc c (b_h b) (b_time b) dd) dd in
     if parent_time s >? b_time b then (s, ETime, [])
     else match kept with
          | [] => (s, EEmpty, [])
@@ -225,3 +308,90 @@ Definition init (g : blk) : st := mkSt [g] [] [].
 
 (** all transactions of a chain *)
 Definition chain_txs (l : list blk) : list tx := flat_map b_txs l.
+
+(** * The node with a concrete mempool *)
+
+(** a pooled item: one transaction, or the members of a group (the pool keeps the group inside
+    the Header of a copy of its first member) *)
+Definition pent : Type := list tx.
+
+(** Hash() of the pooled item = Hash() of its first member *)
+Definition p_hash (e : pent) : N := match e with t :: _ => th t | [] => 0%N end.
+
+(** FullHash() of the pooled item; the copy that carries a group has a FullHash() of its own,
+    which no block transaction has *)
+Definition p_full (e : pent) : option N := match e with [t] => Some (tfull t) | _ => None end.
+
+Definition pool_hashes (p : list pent) : list N := map p_hash p.
+
+(** the pool holds a transaction with the Hash() of [t] and the same FullHash() *)
+Definition pool_same (p : list pent) (t : tx) : bool :=
+  existsb (fun e => N.eqb (p_hash e) (th t)
+                    && match p_full e with Some f => N.eqb f (tfull t) | None => false end) p.
+
+(** txCache.Push (the queue refuses a Hash() it already holds) *)
+Definition pool_add (e : pent) (p : list pent) : list pent :=
+  if memN (p_hash e) (pool_hashes p) then p else e :: p.
+
+(** Mempool.RemoveTxsOfBlock *)
+Definition pool_rm (txs : list tx) (p : list pent) : list pent :=
+  filter (fun e => negb (memN (p_hash e) (map th txs))) p.
+
+(** Mempool.removeExpired: Transaction.IsExpire of the pooled item (for a group: of any member) *)
+Definition pool_exp (c : cfg) (h bt : Z) (p : list pent) : list pent :=
+  filter (fun e => negb (existsb (fun t => is_expire c t h bt) e)) p.
+
+(** eventAddBlock for the new tip [b] *)
+Definition pool_after (c : cfg) (b : blk) (p : list pent) : list pent :=
+  pool_exp c (b_h b + 1) (b_time b) (pool_rm (b_txs b) p).
+
+(** Mempool.delBlock cuts the block into single transactions and groups *)
+Fixpoint segs (n : nat) (txs : list tx) : list pent :=
+  match n, txs with
+  | S n', t :: r =>
+      let k := Z.to_nat (tgc t) in
+      if ((2 <=? k) && (k <=? length txs))%nat then firstn k txs :: segs n' (skipn k txs)
+      else [t] :: segs n' r
+  | _, _ => []
+  end.
+
+Definition blk_segs (b : blk) : list pent := segs (length (b_txs b)) (b_txs b).
+
+Record node := mkNode {
+  n_st : st;
+  n_pool : list pent;     (* txCache *)
+  n_limbo : list pent     (* items of disconnected blocks whose EventDelBlock may still be on its way *)
+}.
+
+Inductive nop :=
+| NPeer (b : blk)
+| NSelf (b : blk)
+| NDisc
+| NPool (e : pent)        (* an offer that the mempool accepted *)
+| NSync (hs : list N).    (* after a re-organisation: the pool answers "exists" for exactly these Hash ids *)
+
+Definition is_ok (e : err) : bool := match e with ENone => true | _ => false end.
+
+Definition nstep (c : cfg) (n : node) (o : nop) : node :=
+  match o with
+  | NPeer b =>
+      let '(s', e) := connect_peer c (n_st n) (pool_hashes (n_pool n)) b in
+      mkNode s' (if is_ok e then pool_after c b (n_pool n) else n_pool n) (n_limbo n)
+  | NSelf b =>
+      let '(s', e, kept) := connect_self c (n_st n) b in
+      mkNode s' (if is_ok e
+                 then pool_after c (mkBlk (b_id b) (b_par b) (b_h b) (b_time b) kept) (n_pool n)
+                 else n_pool n) (n_limbo n)
+  | NDisc =>
+      match chain (n_st n) with
+      | b :: _ :: _ => mkNode (disconnect c (n_st n)) (n_pool n) (n_limbo n ++ blk_segs b)
+      | _ => n
+      end
+  | NPool e => mkNode (n_st n) (pool_add e (n_pool n)) (n_limbo n)
+  | NSync hs =>
+      mkNode (n_st n) (filter (fun e => memN (p_hash e) hs) (n_pool n ++ n_limbo n)) []
+  end.
+
+Definition nrun (c : cfg) (n : node) (ops : list nop) : node := fold_left (nstep c) ops n.
+
+Definition ninit (g : blk) : node := mkNode (init g) [] [].
